@@ -103,6 +103,15 @@ func runC07x(c *GCase, clone bool, st *Stats) (dd *c07Diffs, err error) {
 		defer func() { _ = recover() }()
 		_, _ = parsley.Parse(ctx, b.NT[0])
 	}()
+	// and once more on a context with both passes enabled (no interpreter here transforms or checks
+	// anything: the passes have nothing to do to the nodes they walk)
+	func() {
+		defer func() { _ = recover() }()
+		ctxT, _ := NewCtx(in)
+		ctxT.EnableTransformation()
+		ctxT.EnableStaticCheck()
+		_, _ = parsley.Parse(ctxT, b.NT[0])
+	}()
 	compare("after the parse")
 	shared := false
 	for _, v := range probe.asks {
